@@ -873,7 +873,8 @@ def spell_scale(x):
     from decimal import Decimal
     e = math.floor(x)
     mant = int(round(10 ** (x - e) * 100))
-    d = Decimal(mant) * Decimal(10) ** (e - 2)
+    from ..dec import HI
+    d = HI.multiply(Decimal(mant), HI.power(Decimal(10), e - 2))
     text = format(d, "f")
     if "." in text:
         text = text.rstrip("0")
